@@ -1,12 +1,13 @@
 #!/bin/sh
 # usage: tools/mutrun.sh <patch.diff> <Cxx> [tier]   -- apply a patch to a scratch worktree of /repo, run the check on it
+HERE="$(cd "$(dirname "$0")/.." && pwd)"
 PATCH="$(realpath "$1")"; PROP="$2"; TIER="${3:-quick}"
 W="$(mktemp -d /tmp/gvmut.XXXXXX)"; rmdir "$W"
 git -C /repo worktree add --detach "$W" HEAD >/dev/null 2>&1 || exit 3
 ( cd "$W" && git apply "$PATCH" ) || { git -C /repo worktree remove --force "$W"; echo "PATCH FAILED"; exit 3; }
-cd /verif && VERIF_REPO="$W" ./check "$PROP" "$TIER"
+cd "$HERE" && VERIF_REPO="$W" ./check "$PROP" "$TIER"
 RC=$?
 git -C /repo worktree remove --force "$W"
-rm -rf "/verif/.build/$(python3 -c "import hashlib,sys;print(hashlib.sha1(sys.argv[1].encode()).hexdigest()[:10])" "$W")"
+rm -rf "$HERE/.build/$(python3 -c "import hashlib,sys;print(hashlib.sha1(sys.argv[1].encode()).hexdigest()[:10])" "$W")"
 echo "mutrun rc=$RC"
 exit $RC
